@@ -67,3 +67,14 @@ package labelpatch
 //@ loop 1 invariant groups_fresh: (cap(lowPriorityPods) == 0 || fresh(lowPriorityPods)) && (cap(highPriorityPods) == 0 || fresh(highPriorityPods)) && (cap(terminatingPods) == 0 || fresh(terminatingPods))
 //@ loop 1 invariant framed: unchangedOutside()
 //@ loop 1 invariant droppable_pods_are_unlabelled: forall q :: 0 <= q && q < len(lowPriorityPods) ==> lowPriorityPods[q] != nil && lowPriorityPods[q].Labels["rollouts.kruise.io/rollout-id"] != ctx.RolloutID
+
+// (F27) the ordered variant keeps the same promise as the unordered one: a pod that already carries this release's
+// rollout-id is never put into the group that may be cut from the patcher's input.
+//@ func FilterPodsForOrderedUpdate
+//@ props C12
+//@ requires ctx != nil
+//@ requires pods_set: forall q :: 0 <= q && q < len(pods) ==> pods[q] != nil
+//@ loop 1 invariant pods_kept: (forall q :: 0 <= q && q < len(pods) ==> pods[q] != nil) && -1 <= rangeindex && rangeindex < len(pods)
+//@ loop 1 invariant groups_fresh: (cap(lowPriorityPods) == 0 || fresh(lowPriorityPods)) && (cap(highPriorityPods) == 0 || fresh(highPriorityPods)) && (cap(terminatingPods) == 0 || fresh(terminatingPods))
+//@ loop 1 invariant groups_apart: (cap(lowPriorityPods) == 0 || cap(highPriorityPods) == 0 || backing(lowPriorityPods) != backing(highPriorityPods)) && (cap(lowPriorityPods) == 0 || cap(terminatingPods) == 0 || backing(lowPriorityPods) != backing(terminatingPods)) && (cap(lowPriorityPods) == 0 || backing(lowPriorityPods) != backing(pods))
+//@ loop 1 invariant droppable_pods_are_unlabelled: forall q :: 0 <= q && q < len(lowPriorityPods) ==> lowPriorityPods[q] != nil && lowPriorityPods[q].Labels["rollouts.kruise.io/rollout-id"] != ctx.RolloutID
